@@ -107,7 +107,7 @@ func runC20(b *mon.B) {
 		b.Class(key)
 
 		world := simnet.New()
-		world.KeepLog = false
+		world.SetKeepLog(false)
 		world.Watchdog = 20 * time.Second
 		tp := tap.New(world)
 		tp.KeepBodies = false
